@@ -242,6 +242,24 @@ def run(res, tier):
         pend.append(("enc", case, out))
         lines.append("c08t " + ",".join(str(out["regions"][k * nseg]["y"][1] - out["regions"][k * nseg]["y"][0]) for k in range(len(out["region_order"]))))
         pend.append(("til", case, out))
+        # X-point slots: the X-point stored for an end of a region is the one that end touches, and it lies on the radial boundary
+        # it is stored at
+        for row in out.get("xslots", []):
+            for end in ("start", "end"):
+                for b, e in enumerate(row[end]):
+                    if e is None:
+                        continue
+                    which, dpsi, near = e
+                    if which != near or which < 0:
+                        res.violation("xpoint-slot-wrong-xpoint", "%s: xPointsAt%s[%d] of region %s is X-point %d of equilibrium.x_points but that end of the region "
+                                      "is at X-point %d" % (case["kind"], end.capitalize(), b, row["name"], which, near), case)
+                    elif abs(dpsi) > 1e-9:
+                        res.violation("xpoint-slot-wrong-boundary", "%s: xPointsAt%s[%d] of region %s holds an X-point whose psi differs by %.3g from the psi of "
+                                      "radial boundary %d" % (case["kind"], end.capitalize(), b, row["name"], dpsi, b), case)
+        if (lk, "xslots") not in tables_checked and out.get("xslots") is not None:
+            tables_checked.add((lk, "xslots"))
+            lines.append("c08x %s %d" % (lk, len(out["region_order"])))
+            pend.append(("xsl", case, out))
         if (lk, nseg) not in tables_checked:
             tables_checked.add((lk, nseg))
             lines.append("c08u %s %d %d" % (lk, len(out["region_order"]), nseg))
@@ -277,6 +295,15 @@ def run(res, tier):
             rs = [tuple(out["regions"][k * nseg]["y"]) for k in range(len(out["region_order"]))]
             if ms != rs:
                 res.broken("y slices differ from the model's cumulative-sum slices", {"case": case, "impl": rs, "model": ms})
+            else:
+                res.traces += 1
+        elif what == "xsl":
+            def sh(lst):
+                e = [(b, x[0]) for b, x in enumerate(lst) if x is not None]
+                return "-" if not e else ",".join("%d,%d" % t for t in e)
+            rt = " ".join("s:%s e:%s" % (sh(row["start"]), sh(row["end"])) for row in out["xslots"])
+            if rt != m.strip():
+                res.broken("X-point slot table differs from the model's table", {"case": case["kind"], "impl": rt, "model": m.strip()})
             else:
                 res.traces += 1
         else:
